@@ -650,7 +650,9 @@ static void examine_brace(Chunk *bopen)
                || pc->Is(CT_SWITCH)
                || pc->Is(CT_USING_STMT)
                || (  pc->Is(CT_BRACE_OPEN)
-                  && pc->GetLevel() == bopen->GetLevel())) // Issue #1758
+                  && pc->GetLevel() == bopen->GetLevel()) // Issue #1758
+               || (  pc->Is(CT_BRACE_OPEN)
+                  && pc->GetParentType() == CT_NONE))     // a nested block is a statement of its own
             {
                LOG_FMT(LBRDEL, "%s(%d): pc->Text() '%s', orig line is %zu, orig col is %zu, level is %zu\n",
                        __func__, __LINE__, pc->Text(), pc->GetOrigLine(), pc->GetOrigCol(), pc->GetLevel());
